@@ -5,6 +5,8 @@ import copy
 
 import numpy as np
 
+import mygrad as mg
+
 from .. import engcheck, progs
 from ..core import Ctx, Outcome, Violation
 
@@ -64,6 +66,82 @@ def oracle(prog, idx):
     return fails
 
 
+# ------------------------------------------------------------------ sums over paths through every op / layer family
+
+
+def _builders():
+    from . import c05, c14
+
+    bs = [("layer:" + n, (lambda rng, f=f: f(rng, np.float64))) for n, f in c14.layer_cases()]
+    bs += [("op:" + n, f) for n, f in c05.op_cases()]
+    return bs
+
+
+def paths_case(args):
+    """`x.grad` is the sum over *every* path from x to L, whatever order the independent terms of L were written in —
+    also where an operation stores gradients itself instead of going through the engine (layers with their own
+    backward): L = <op/layer term> + sum_i <penalty on input i>, in both orders, and with the op's output used twice;
+    expected: the gradients of the terms back-propagated separately, added."""
+    seed, bi = args
+    name, build = _builders()[bi]
+    fails = []
+    prec = []
+
+    def run(order):
+        rng = np.random.default_rng([seed, bi])
+        ins, out = build(rng)
+        wr = np.random.default_rng([seed, bi, 1])
+        c = wr.uniform(-1.0, 1.0, size=out.shape)
+        ds = [wr.uniform(-1.0, 1.0, size=t.shape) for t in ins]
+        term_a = lambda: (out * c).sum()
+        term_b = lambda: sum((t * t * d).sum() for t, d in zip(ins, ds) if not t.constant and t.dtype.kind == "f")
+        if order == "a":
+            L = term_a()
+        elif order == "b":
+            L = term_b()
+        elif order == "ab":
+            L = term_a() + term_b()
+        elif order == "ba":
+            L = term_b() + term_a()
+        else:  # "aa": the op's output reaches L twice
+            L = term_a() + term_a()
+        if not isinstance(L, mg.Tensor) or L.constant:
+            return None
+        L.backward()
+        prec.extend(t.dtype for t in ins)
+        return [None if t.grad is None else np.array(t.grad, dtype=np.float64) for t in ins]
+
+    try:
+        ga, gb = run("a"), run("b")
+        if ga is None:
+            return {"name": name, "fails": [], "args": list(args), "skipped": True}
+        res = {k: run(k) for k in ("ab", "ba", "aa")}
+    except Exception as e:  # noqa: BLE001
+        return {"name": name, "fails": [("raised", f"{type(e).__name__}: {str(e)[:100]}")], "args": list(args)}
+
+    def add(x, y):
+        if x is None:
+            return y
+        if y is None:
+            return x
+        return x + y
+
+    exp = {"ab": [add(x, y) for x, y in zip(ga, gb or [None] * len(ga))], "aa": [None if x is None else 2 * x for x in ga]}
+    exp["ba"] = exp["ab"]
+    for k in ("ab", "ba", "aa"):
+        for j, (g, e) in enumerate(zip(res[k], exp[k])):
+            lowp = prec[j] != np.float64  # (a case that fixes its own, lower, precision: sums are rounded per term)
+            if (g is None) != (e is None) or (g is not None and not np.allclose(g, e, rtol=1e-2 if lowp else 1e-9,
+                                                                                 atol=1e-2 if lowp else 1e-11, equal_nan=True)):
+                what = {"ab": "L = op-term + penalties", "ba": "L = penalties + op-term", "aa": "L = op-term + op-term"}[k]
+                fails.append(("paths-not-summed", f"{what}: gradient of input {j} is {None if g is None else np.round(g, 6).tolist()}, "
+                              f"the separately back-propagated terms add up to {None if e is None else np.round(e, 6).tolist()}"))
+                break
+        if fails:
+            break
+    return {"name": name, "fails": fails, "args": list(args)}
+
+
 def nontrivial(prog):
     f = progs.features(prog)
     # at least two ops, and a tensor used at least twice (fan-out / repeated operand)
@@ -89,14 +167,36 @@ def run(ctx: Ctx) -> Outcome:
     out.rule = ("random DAG programs over add/sub/mul/neg/pos/square/sum/getitem/take/reshape/transposes/expand/squeeze/"
                 "broadcast_to with constant and non-constant leaves, ndarray and Python-scalar operands, broadcasting, "
                 "repeated operands, one final backward (seed None/array/broadcastable array); non-trivial = >=3 ops and a "
-                "tensor with fan-out >=2; distinct by program hash")
+                "tensor with fan-out >=2; distinct by program hash.  Plus, for every op / layer family of the C05 and C14 case lists "
+                "(~40, incl. layers that store gradients themselves): L = op-term + penalties on its inputs, in both orders, and "
+                "op-term + op-term, against the separately back-propagated terms added")
     seen = engcheck.report(out, results, "C01", oracle)
+    from ..core import pmap, stable_hash
+
+    nb = len(_builders())
+    pres = pmap(paths_case, [(ctx.seed + r, bi) for bi in range(nb) for r in range(ctx.n(1, 3))])
+    hist = {}
+    for r in pres:
+        out.evaluations += 1
+        hist[r["name"]] = hist.get(r["name"], 0) + 1
+        if not r.get("skipped"):
+            out.nontrivial.add(stable_hash(["paths", r["args"]]))
+        for cls, msg in r["fails"]:
+            sig = f"C01|{cls}|{r['name']}"
+            if sig not in seen:
+                seen.add(sig)
+                out.violations.append(Violation(sig, f"{r['name']}: {msg}", {"kind": "paths", "args": r["args"]}))
+    out.stats["paths_cases"] = hist
     out.assumptions = ["exact-integer fragment (float64 holding small integers); float rounding order is not claimed",
                        "each op's VJP being the transpose of its derivative is C02"]
     return out
 
 
 def replay(data) -> bool:
+    if data["replay"].get("kind") == "paths":
+        res = paths_case(tuple(data["replay"]["args"]))
+        print(res)
+        return bool(res["fails"])
     p = data["replay"]["program"]
     for st in p:
         print(progs.to_line(st))
